@@ -213,21 +213,19 @@ def check(model, rep, tier):
 
   # ---------------------------------------------------------------- LV-BLOCK
   blo = ta.methods.get('_block_statement_live_out')
-  loops = [n for n in ast.walk(blo.node) if isinstance(n, ast.For)]
-  ok = len(loops) == 1
+  from sa import family
+  bp = blo.params()[0]
+  sets = [c for c in ast.walk(blo.node) if isinstance(c, ast.Call) and
+          core.dotted(c.func) == 'anno.setanno' and len(c.args) == 3 and
+          core.norm(c.args[0]) == bp and
+          core.norm(c.args[1]) == 'anno.Static.LIVE_VARS_OUT']
+  ok = len(sets) == 1
   facts = {}
   if ok:
-    lp = loops[0]
-    bp = blo.params()[0]
-    lv = core.norm(lp.target)
-    facts = {'body': [core.norm(s) for s in lp.body]}
-    it = tpl.xnorm(blo, lp.iter, lp.iter)
-    ok = it == 'self.current_analyzer.graph.stmt_next[%s]' % bp and len(lp.body) == 1
-    if ok:
-      b = pat.match('_S_.update(self.current_analyzer.in_[%s])' % lv, lp.body[0]) or \
-          pat.match('_S_ |= self.current_analyzer.in_[%s]' % lv, lp.body[0])
-      ok = b is not None and pat.has(
-          blo.node, 'anno.setanno(%s, anno.Static.LIVE_VARS_OUT, frozenset(_S_))' % bp, b)
+    uf = family.union_family(blo, sets[0].args[2], sets[0])
+    facts = {'union_over': uf[0] if uf else None, 'of': uf[1] if uf else None}
+    ok = uf == ('self.current_analyzer.graph.stmt_next[%s]' % bp,
+                'self.current_analyzer.in_[N]')
   rep.check(ok, 'LV-BLOCK', '%s:all-statement-successors' % blo.site,
             'the live-out of a compound statement is the union of the live-in '
             'of *all* its statement successors', facts, line=blo.node.lineno,
